@@ -275,6 +275,14 @@ func arg(class string) interface{} {
 		return dec("-Infinity")
 	case "huge":
 		return int64(math.MaxInt64)
+	case "minint":
+		return int64(math.MinInt64)
+	case "minint32":
+		return int32(math.MinInt32)
+	case "mindouble":
+		return float64(math.MinInt64) // -2^63, integral and the smallest double that converts to an int64
+	case "maxdouble":
+		return float64(1 << 63) // 2^63, integral and just outside the int64 range
 	case "string":
 		return "x"
 	case "emptystr":
